@@ -2498,10 +2498,19 @@ class NetCDFRead(IORead):
 
         instance_dimension_size = indexed["instance_dimension_size"]
 
-        element_dimension_1_size = int(profiles_per_instance.max())
-        element_dimension_2_size = int(
-            self.implementation.get_data_maximum(elements_per_profile)
-        )
+        # Note: There are no profiles at all when the count and index
+        # variables are empty
+        if profiles_per_instance.size:
+            element_dimension_1_size = int(profiles_per_instance.max())
+        else:
+            element_dimension_1_size = 0
+
+        if self.implementation.get_data_size(elements_per_profile):
+            element_dimension_2_size = int(
+                self.implementation.get_data_maximum(elements_per_profile)
+            )
+        else:
+            element_dimension_2_size = 0
 
         g["compression"][sample_dimension]["ragged_indexed_contiguous"] = {
             "count_variable": elements_per_profile,
@@ -2894,9 +2903,14 @@ class NetCDFRead(IORead):
         instance_dimension_size = self.implementation.get_data_size(
             elements_per_instance
         )
-        element_dimension_size = int(
-            self.implementation.get_data_maximum(elements_per_instance)
-        )
+        # Note: There are no instances at all when the count variable
+        # is empty
+        if instance_dimension_size:
+            element_dimension_size = int(
+                self.implementation.get_data_maximum(elements_per_instance)
+            )
+        else:
+            element_dimension_size = 0
 
         # Make sure that the element dimension name is unique
         element_dimension = self._new_ncdimension(
@@ -2954,7 +2968,12 @@ class NetCDFRead(IORead):
             instance_dimension
         ]
 
-        element_dimension_size = int(elements_per_instance.max())
+        # Note: There are no samples at all when the index variable is
+        # empty
+        if elements_per_instance.size:
+            element_dimension_size = int(elements_per_instance.max())
+        else:
+            element_dimension_size = 0
         element_dimension = self._new_ncdimension(
             element_dimension, element_dimension_size
         )
